@@ -59,13 +59,16 @@ func c11WorldFor(session string) *c11World {
 	if w, ok := c11Worlds[session]; ok {
 		return w
 	}
+	// a second client with a redirect URI of its own: its (broken) responses precede the observed one when prior = failedWrite
+	other := &modelstore.ClientReg{ID: "c11other", Secret: "secret-c11other", Auth: "basic", App: "web", Grants: []string{"code"}, RTypes: []string{"code"},
+		ATType: "opaque", IDTLifetime: time.Hour, URIs: []string{c11OtherURI}}
 	reg := &modelstore.ClientReg{ID: "c11", Secret: "secret-c11", Auth: "basic", App: "native", Dev: true, Grants: []string{"code", "implicit", "refresh"},
 		RTypes: []string{"code", "id_token", "id_token token"}, ATType: "opaque", IDTLifetime: time.Hour}
 	for _, u := range c11URIs {
 		reg.URIs = append(reg.URIs, u)
 	}
 	sort.Strings(reg.URIs)
-	store := modelstore.New([]*modelstore.ClientReg{reg}, opdrv.SigningKeyFor("ES256"))
+	store := modelstore.New([]*modelstore.ClientReg{reg, other}, opdrv.SigningKeyFor("ES256"))
 	store.PromptNoneLoginRequired = true // a request with prompt=none is refused by the storage (nobody is logged in): login_required
 	w := &c11World{store: store, h: map[string]http.Handler{}}
 	for _, router := range []string{"P", "L"} {
@@ -153,8 +156,10 @@ func (b *brokenWriter) WriteHeader(int)           {}
 func (b *brokenWriter) Write([]byte) (int, error) { return 0, http.ErrHandlerTimeout }
 
 // c11BrokenFormPost runs a complete form_post code flow of another user agent whose connection breaks while the page is written.
+const c11OtherURI = "https://other-c11.example.test/landing"
+
 func c11BrokenFormPost(w *c11World, h http.Handler, registered string) {
-	q := url.Values{"client_id": {"c11"}, "redirect_uri": {registered}, "response_type": {"code"}, "nonce": {"n-0"}, "scope": {"openid"},
+	q := url.Values{"client_id": {"c11other"}, "redirect_uri": {c11OtherURI}, "response_type": {"code"}, "nonce": {"n-0"}, "scope": {"openid"},
 		"state": {"state-of-the-broken-flow"}, "response_mode": {"form_post"}}
 	r := opdrv.Serve(h, httptest.NewRequest(http.MethodGet, opdrv.Issuer+"/authorize?"+q.Encode(), nil))
 	id := strings.TrimPrefix(r.Location, "/login?authRequestID=")
@@ -319,7 +324,9 @@ func parseFormStrict(body string) (action string, inputs url.Values, safe bool) 
 				for _, a := range n.Attr {
 					switch a.Key {
 					case "action":
-						action = a.Val
+						if forms == 1 { // the page submits document.forms[0]: where the FIRST form goes is where the response goes
+							action = a.Val
+						}
 					case "method":
 					default:
 						safe = false
